@@ -19,6 +19,7 @@ type c09Dnn struct {
 	Prior       string `json:"prior_dnn"`
 	PriorViaLen bool   `json:"prior_installed_like_a_decoder,omitempty"` // SetLen + copy into Buffer instead of SetDNN
 	Labels      []int  `json:"new_label_lengths"`
+	Text        string `json:"new_value_text,omitempty"` // explicit new value (label lengths are then derived from it)
 }
 
 func c09DnnValue(labels []int) string {
@@ -42,6 +43,13 @@ func c09DnnExec(c *core.Ctx, in c09Dnn) {
 	c.Distinct(core.Hash64("dnn", in.Prior, in.PriorViaLen, fmt.Sprint(in.Labels)), true)
 	fail := func(k, w string) { c.FailCase("DNN.DNN|"+k, w, "dnn", in) }
 	nv := c09DnnValue(in.Labels)
+	if in.Text != "" {
+		nv = in.Text
+		in.Labels = nil
+		for _, seg := range strings.Split(nv, ".") {
+			in.Labels = append(in.Labels, len(seg))
+		}
+	}
 	want := dnnLabels(nv)
 	clearlyValid := len(want) <= 100
 	for _, l := range in.Labels {
@@ -126,6 +134,58 @@ func c09DnnRun(c *core.Ctx) (n int64) {
 				c09DnnExec(c, c09Dnn{Prior: p, PriorViaLen: via, Labels: nw})
 				n++
 			}
+		}
+	}
+	// label texts: the words of the element's current source (and two defaults) in lower, upper and mixed case, bare and
+	// with a digit group behind them, as the last one, two or three labels of a name — a getter that recognises particular
+	// labels must still return exactly what was stored
+	{
+		words, _ := c14SourceWords("nasType.DNN.GetDNN")
+		var labels []string
+		seen := map[string]bool{}
+		for _, w := range append([]string{"internet", "ims"}, words...) {
+			ok := w != ""
+			for i := 0; i < len(w); i++ {
+				ch := w[i]
+				if !(ch >= 'a' && ch <= 'z' || ch >= 'A' && ch <= 'Z' || ch >= '0' && ch <= '9' || ch == '-') {
+					ok = false
+				}
+			}
+			if !ok || len(w) > 12 {
+				continue
+			}
+			for _, cs := range []string{strings.ToLower(w), strings.ToUpper(w), strings.ToUpper(w[:1]) + strings.ToLower(w[1:])} {
+				for _, suf := range []string{"", "001", "01"} {
+					if l := cs + suf; !seen[l] && len(labels) < 72 {
+						seen[l] = true
+						labels = append(labels, l)
+					}
+				}
+			}
+		}
+		for li, l1 := range labels {
+			if !c.Mine(100 + li) {
+				continue
+			}
+			if !c.Begin("dnn", "DNN.DNN", map[string]string{"last_label": l1}) {
+				continue
+			}
+			run := func(txt string) {
+				c09DnnExec(c, c09Dnn{Prior: "internet", Text: txt})
+				c09DnnExec(c, c09Dnn{Prior: "a.mnc001.mcc001.gprs", PriorViaLen: true, Text: txt})
+				n += 2
+			}
+			run(l1)
+			run("internet." + l1)
+			for _, l2 := range labels {
+				run("internet." + l2 + "." + l1)
+				for _, l3 := range labels {
+					if len(l1)+len(l2)+len(l3) <= 80 {
+						run("apn." + l3 + "." + l2 + "." + l1)
+					}
+				}
+			}
+			c.Tick()
 		}
 	}
 	return n
